@@ -68,8 +68,7 @@ def check_consume(ctx, fx, cfg, floor):
                 ctx.require(not drops, "R18.1", "%s@%s" % (f["def"], cfg), "an actor handle is dropped on a normal path (on a runtime whose task handle cancels on drop the freshly spawned actor dies): %s" % [(t["ty"][:60], t["l"]) for _, t in drops], fn=f["def"], site=drops[0][1]["l"] if drops else f["loc"], detail={"mir": "post (drops elaborated)"})
         else:
             b = ctx.body(fx, f, "pre")
-            mm = b.must_moved_at_term()
-            drops = [(bi, blk["t"]) for bi, blk in enumerate(b.blocks) if not blk["c"] and blk["t"]["k"] == "drop" and handle_types(blk["t"]["ty"]) and len(blk["t"]["p"]) == 1 and blk["t"]["p"][0] not in mm.get(bi, set()) and not given_by_caller(b, blk["t"]["p"][0])]
+            drops = [(bi, blk["t"]) for bi, blk in enumerate(b.blocks) if not blk["c"] and blk["t"]["k"] == "drop" and handle_types(blk["t"]["ty"]) and len(blk["t"]["p"]) == 1 and not b.drop_is_noop_for(bi, blk["t"]["p"][0], handle_types) and not given_by_caller(b, blk["t"]["p"][0])]
             # a coroutine's captured variables are dropped by its own drop glue only when it is dropped unfinished
             if f["def"] in sites or drops:
                 ctx.require(not drops, "R18.1", "%s@%s" % (f["def"], cfg), "an actor handle may be dropped on a normal path of this async body: %s" % [(t["ty"][:60], t["l"]) for _, t in drops], fn=f["def"], site=drops[0][1]["l"] if drops else f["loc"], detail={"mir": "pre + must-moved analysis"})
